@@ -77,6 +77,10 @@ def build (H : Bytes → Bytes) : Nat → List (Bytes × Bool) → List Bool × 
       else (true :: l.1, l.2)
     else ([false], [calcHash H (h + 1) (seg.map (·.1))])
 
+/-- the ids whose match bit is set, in block order -/
+def matchedIds (ids : List Bytes) (matched : List Bool) : List Bytes :=
+  ((ids.zip matched).filter (·.2)).map (·.1)
+
 /-- pad the flag bits with zeros to a whole number of bytes -/
 def padBits (bits : List Bool) : List Bool := bits ++ List.replicate ((8 - bits.length % 8) % 8) false
 
